@@ -27,6 +27,8 @@ CONSTANTS
   CallKinds,     \* subset of {"CALL","CALLCODE","DELEGATECALL","STATICCALL"}
   Targets,       \* addresses a call instruction may name
   Values,        \* subset of 0..2
+  Slots,         \* storage slots used by SSTORE/REGKEY/JV, subset of {0,1}
+  SVals,         \* values stored, subset of {1,2}
   ArgLens,       \* calldata lengths, subset of {0,1,4,33}
   Overs,         \* subset of BOOLEAN: return area on top of the argument area
   InitProgs,     \* subset of {"stop","sstore","revert","invalid","big"}
@@ -69,7 +71,6 @@ Base == {"eoa", "a", "b", "n", "p", "pw"}
 AllAddr == Base \cup {Created(c, n) : c \in Creators \cup {"eoa"}, n \in 0..3}
                 \cup {Created2(c, p) : c \in Creators, p \in InitProgs}
 Precompiles == {"p"} \cup (IF Berlin THEN {"pw"} ELSE {})
-Slots == {0, 1}
 
 NoInstr == [op |-> "", kind |-> "", tgt |-> "", val |-> 0, alen |-> 0, over |-> FALSE,
             slot |-> 0, child |-> 0, init |-> ""]
@@ -80,7 +81,7 @@ Instr(op) == [NoInstr EXCEPT !.op = op]
 
 World0 ==
   [ bal    |-> [x \in AllAddr |-> IF x = "eoa" THEN 5 ELSE IF x = "a" THEN 2 ELSE 0],
-    stor   |-> [x \in AllAddr |-> [s \in Slots |-> 0]],
+    stor   |-> [x \in AllAddr |-> [s \in {0, 1} |-> 0]],
     tstor  |-> [x \in AllAddr |-> 0],
     code   |-> [x \in AllAddr |-> IF x \in {"a", "b"} THEN "prog" ELSE "none"],
     exists |-> {"eoa", "a", "b"},
@@ -255,8 +256,8 @@ CtxWriteOK(f) == f.kind = "CALL"
 CallBodyTrivial ==
   /\ frames # <<>> /\ Top.phase = "body" /\ ~IsCreateFrame(Top)
   /\ LET f == Top IN
-     \/ /\ f.codeAt = "p"
-        /\ frames' = SetTop([f EXCEPT !.phase = "settle"])
+     \/ /\ f.codeAt = "p"     \* the identity precompile hands its input back
+        /\ frames' = SetTop([f EXCEPT !.phase = "settle", !.ret = IF f.alen > 0 THEN "in" ELSE ""])
         /\ UNCHANGED host
      \/ /\ f.codeAt = "pw" /\ Berlin
         /\ IF CtxWriteOK(f)
@@ -430,7 +431,7 @@ Tick == budget' = [budget EXCEPT !.instr = @ - 1]
 
 ISStore ==
   /\ CanStep /\ "SSTORE" \in Ops
-  /\ \E s \in Slots, v \in {1, 2} :
+  /\ \E s \in Slots, v \in SVals :
        /\ scn' = AddProg([Instr("SSTORE") EXCEPT !.slot = s, !.val = v])
        /\ IF Top.static
           THEN /\ frames' = SetTop(Fail(Top, "wp")) /\ UNCHANGED world
@@ -447,7 +448,7 @@ ILog ==
 
 ITStore ==
   /\ CanStep /\ "TSTORE" \in Ops
-  /\ \E v \in {1, 2} :
+  /\ \E v \in SVals :
        /\ scn' = AddProg([Instr("TSTORE") EXCEPT !.val = v])
        /\ IF ~Cancun THEN /\ frames' = SetTop(Fail(Top, "invalid")) /\ UNCHANGED world
           ELSE IF Top.static THEN /\ frames' = SetTop(Fail(Top, "wp")) /\ UNCHANGED world
